@@ -20,30 +20,33 @@ _END = re.compile(rb'^(OK|NO|BYE)\b')
 
 
 def split_sieve(buf: bytes):
-    """-> (complete responses (each = list of lines up to and including the OK/NO/BYE line), rest)"""
+    """-> (complete responses (each = list of logical lines up to and including the OK/NO/BYE line), rest).
+    A logical line may contain literals ({n}CRLF + n bytes) anywhere; it ends at the first CRLF outside a literal."""
     out, cur = [], []
     pos, n = 0, len(buf)
     start_resp = 0
     while pos < n:
-        eol = buf.find(b'\r\n', pos)
-        if eol < 0:
-            break
-        line_end = eol + 2
-        line = buf[pos:line_end]
-        m = _LIT.search(line)
-        if m:
-            ln = int(m.group(1))
-            if line_end + ln + 2 > n:
+        line_start = pos
+        complete = False
+        while True:
+            eol = buf.find(b'\r\n', pos)
+            if eol < 0:
                 break
-            cur.append(line + buf[line_end:line_end + ln + 2])
-            pos = line_end + ln + 2
-            if _END.match(line):        # the final line of a response may carry its text as a literal
-                out.append(cur)
-                cur = []
-                start_resp = pos
-            continue
+            seg_end = eol + 2
+            m = _LIT.search(buf[line_start:seg_end] if pos == line_start else buf[pos:seg_end])
+            if m:
+                ln = int(m.group(1))
+                if seg_end + ln > n:
+                    break
+                pos = seg_end + ln          # the line goes on after the literal
+                continue
+            pos = seg_end
+            complete = True
+            break
+        if not complete:
+            break
+        line = buf[line_start:pos]
         cur.append(line)
-        pos = line_end
         if _END.match(line):
             out.append(cur)
             cur = []
